@@ -84,6 +84,7 @@ func runC06(p *core.Prog, r *core.Result) {
 		"R6.6 the cyclic-dependency error of wait is produced only where the chain walk met the waiter",
 		"R6.9 no slot of a bounded resource (send into a channel) is held while a module's code executes, since execution re-enters the loader for nested loads",
 		"R6.8 the loading chain is walked (by wait or a helper) only after the waiter has published its own edge: of two loaders closing a cycle concurrently, the later one sees the whole cycle",
+		"R6.10 done ends every wait: the field the wait loop tests is set by done to a constant that makes the loop exit (not to a result value that can be nil for a module that failed before running)",
 		"R6.7 the loader that registered a module publishes its result (done) on every exit, including failures before execution",
 	}
 	r.NotDecided = []string{"termination and deadlock-freedom under every interleaving of the loader goroutines", "equality of the resulting target and flag sets across interleavings"}
@@ -304,26 +305,149 @@ func runC06(p *core.Prog, r *core.Result) {
 	r.Floor("R6.4", len(waits), 1, "sync.Cond.Wait call sites in the module")
 	nw := checkWakes(p, r, "R6.4", waits, pkgRoot, "module")
 	r.Floor("R6.4", nw, 1, "stores to module.loaded")
-	// publication order in done
-	var loadedStore *ssa.Store
-	var dataStores []*ssa.Store
+	// publication order in done: the completion state (what the wait loop tests) is stored after the results, or in
+	// the same critical section as them
+	tested := map[string]bool{}
+	for _, ws := range waits {
+		if ws.Fn == wait {
+			for _, f := range ws.Fields {
+				tested[f] = true
+			}
+		}
+	}
+	var complStores, dataStores []*ssa.Store
 	core.Instrs(done, func(in ssa.Instruction) {
 		if st, ok := in.(*ssa.Store); ok {
-			if core.IsField(st.Addr, pkgRoot, "module", "loaded") {
-				loadedStore = st
-			}
-			if core.IsField(st.Addr, pkgRoot, "module", "data") || core.IsField(st.Addr, pkgRoot, "module", "err") {
-				dataStores = append(dataStores, st)
+			if owner, fld := core.FieldOf(st.Addr); owner != nil && owner.Obj().Name() == "module" {
+				if tested[fld] {
+					complStores = append(complStores, st)
+				}
+				if fld == "data" || fld == "err" {
+					dataStores = append(dataStores, st)
+				}
 			}
 		}
 	})
-	okPub := loadedStore != nil && len(dataStores) >= 2
+	doneLocks := p.Locks(done)
+	okPub := len(complStores) > 0 && len(dataStores) >= 2
 	for _, ds := range dataStores {
-		if loadedStore == nil || !core.Dominates(ds, loadedStore) {
+		one := false
+		for _, cs := range complStores {
+			if ds == cs || core.Dominates(ds, cs) {
+				one = true
+			}
+			if ds.Block() == cs.Block() && doneLocks.MustHoldClass(ds, modM, core.ModeW) && doneLocks.MustHoldClass(cs, modM, core.ModeW) {
+				one = true
+			}
+		}
+		if !one {
 			okPub = false
 		}
 	}
-	r.Check(okPub, "R6.4", "dawn.(*module).done#publication-order", p.Pos(done.Pos()), "data and err are stored before loaded is set under the lock", "loaded can be observed before data/err are written: waiters read stale results")
+	r.Check(okPub, "R6.4", "dawn.(*module).done#publication-order", p.Pos(done.Pos()), "data and err are stored before (or in the same critical section as) the completion state the wait loop tests", "completion can be observed before data/err are written: waiters read stale results")
+	// R6.10 done ends the wait: the state the wait loop of (*module).wait tests is set by done to a value that makes
+	// the loop exit whatever done's arguments are (a completion flag set to a constant; not a result value that may
+	// be nil for a module that failed before it ran)
+	nEnd := 0
+	for _, ws := range waits {
+		if ws.Fn != wait || ws.Header == nil {
+			continue
+		}
+		iff := ws.Header.Instrs[len(ws.Header.Instrs)-1].(*ssa.If)
+		waitOnTrue := core.Reaches(ws.Header.Succs[0], ws.Call.(ssa.Instruction).Block(), true)
+		core.Instrs(done, func(in ssa.Instruction) {
+			st, ok := in.(*ssa.Store)
+			if !ok {
+				return
+			}
+			owner, fld := core.FieldOf(st.Addr)
+			if owner == nil || owner.Obj().Name() != "module" {
+				return
+			}
+			tested := false
+			for _, f := range ws.Fields {
+				if f == fld {
+					tested = true
+				}
+			}
+			if !tested {
+				return
+			}
+			nEnd++
+			// evaluate the loop test with the field replaced by the stored value: 1 true, 0 false, -1 unknown
+			isField := func(v ssa.Value) bool { return core.LoadOfField(v, pkgRoot, "module", fld) }
+			nonNil := func(v ssa.Value) bool {
+				switch core.Unwrap(v).(type) {
+				case *ssa.Alloc, *ssa.MakeMap, *ssa.MakeSlice, *ssa.MakeInterface, *ssa.MakeClosure, *ssa.MakeChan:
+					return true
+				}
+				return false
+			}
+			var eval func(c ssa.Value) int
+			eval = func(c ssa.Value) int {
+				switch x := c.(type) {
+				case *ssa.UnOp:
+					if x.Op == token.NOT {
+						if v := eval(x.X); v >= 0 {
+							return 1 - v
+						}
+						return -1
+					}
+					if isField(x) {
+						if b, ok := core.ConstBool(st.Val); ok {
+							if b {
+								return 1
+							}
+							return 0
+						}
+					}
+				case *ssa.BinOp:
+					if x.Op != token.EQL && x.Op != token.NEQ {
+						return -1
+					}
+					for _, pr := range [][2]ssa.Value{{x.X, x.Y}, {x.Y, x.X}} {
+						if !isField(pr[0]) {
+							continue
+						}
+						eq := -1
+						if core.IsNilConst(pr[1]) {
+							if core.IsNilConst(st.Val) {
+								eq = 1
+							} else if nonNil(st.Val) {
+								eq = 0
+							}
+						} else if k, ok := core.ConstInt(pr[1]); ok {
+							if kv, ok := core.ConstInt(st.Val); ok {
+								eq = 0
+								if k == kv {
+									eq = 1
+								}
+							}
+						} else if kb, ok := core.ConstBool(pr[1]); ok {
+							if vb, ok := core.ConstBool(st.Val); ok {
+								eq = 0
+								if kb == vb {
+									eq = 1
+								}
+							}
+						}
+						if eq < 0 {
+							return -1
+						}
+						if x.Op == token.NEQ {
+							return 1 - eq
+						}
+						return eq
+					}
+				}
+				return -1
+			}
+			v := eval(iff.Cond)
+			ends := v >= 0 && (v == 1) != waitOnTrue
+			r.Check(ends, "R6.10", fmt.Sprintf("dawn.(*module).done#ends-wait:%s", fld), p.InstrPos(st), "done sets module."+fld+" to a value that makes the wait loop exit, whatever its arguments", "the wait loop tests module."+fld+", and done stores a value there that does not always end the loop (a result that is nil for a module that failed before it ran: a missing file, a syntax error): every other loader of that module then sleeps for ever and Load hangs")
+		})
+	}
+	r.Floor("R6.10", nEnd, 1, "stores in done to the state the wait loop tests")
 	// data/err are only written in done (and read in wait after the loop)
 	for _, fn := range p.ModuleFuncs() {
 		core.Instrs(fn, func(in ssa.Instruction) {
